@@ -22,8 +22,10 @@ class CalModel(object):
     def __init__(self, I, terms=None, months=None, cursory_shift=None):
         self.I = I
         # (year, idx) -> days by which the term's CALENDAR-MAKING day (day table) differs from the day of its precise instant
-        # (in the real data the two differ by a day for some terms before 1928)
-        self.cursory_shift = cursory_shift or {}
+        # (in the real data the two differ by a day for some terms before 1928).  Default: off by -1 / +1 / 0 in turn, in EVERY scenario:
+        # the only reader of the day table in the crate is LunarMonth::new (replaced by the month model here), so date-level code
+        # that consults it instead of the precise instant is wrong, and with this default every scenario rule can see that.
+        self.cursory_shift = cursory_shift
         self.terms = terms or {}      # (year, idx) -> (jdn, sec_of_day)
         self.months = months or []    # list of dicts: year, month (signed), first, count, index
         self.install()
@@ -67,7 +69,7 @@ class CalModel(object):
         names = self.I.static('SOLAR_TERM_NAMES', 'src/tyme/solar.rs')
         parent = self.I.call('LoopTyme::from_index', [list(names), idx])
         n, sec = self.terms[key]
-        return SV('SolarTerm', {'parent': parent, 'year': RInt(year, 'isize'), 'cursory_julian_day': float(n + self.cursory_shift.get(key, 0) - J2000)})
+        return SV('SolarTerm', {'parent': parent, 'year': RInt(year, 'isize'), 'cursory_julian_day': float(n + (self.cursory_shift.get(key, 0) if self.cursory_shift is not None else (-1, 1, 0)[idx % 3]) - J2000)})
 
     def term_key(self, t):
         return (t.f['year'].v, t.f['parent'].f['index'].v)
